@@ -1,3 +1,4 @@
+import Gen.XdlGen
 /-!
 # Executable model of `XdlParser` (src/Xdl.cpp) — the JSON/XDL decoder of C06 (and C05)
 
@@ -14,7 +15,7 @@ Representation choices (not behaviour):
   `AslModel.Strtod.atofBits lex` (assumption: glibc `atof` is correctly rounded, C locale so `_ldp = '.'`);
 * `wchar_t` is a 32-bit signed integer (Linux); `strtoul(.,NULL,16)` on the 4-byte accumulator is
   `strtoul16`.
-Core Lean only.
+Core Lean only (plus the generated constants of `Gen.XdlGen`, read from src/Xdl.cpp on every run).
 -/
 namespace AslModel.Xdl
 
@@ -246,13 +247,14 @@ def leadingZeroBad (b : Bytes) : Option Bool := do
     pure (decide (b1 ≠ 0))
   else pure false
 
-/-- end of a number in state INT (the "starting zero" check, the 9-character int/double split) -/
+/-- end of a number in state INT (the "starting zero" check, the int/double split at `Gen.Xdl.intSplit` characters —
+    the `N` of `if (_buffer.length() > N)` in the source, 9) -/
 def intEnd (p : PState) : Res :=
   let b := buf p
   if b ≠ [45] then
     (leadingZeroBad b).bind fun bad =>
       if bad then errRet p
-      else (scalar p (if b.length > 9 then .num b else .int (myatoiz b))).bind fun p1 => some (.again, p1)
+      else (scalar p (if b.length > Gen.Xdl.intSplit then .num b else .int (myatoiz b))).bind fun p1 => some (.again, p1)
   else errRet p
 
 /-- end of a number with fraction or exponent: `new_number(atof(_buffer)); value_end(); s--;` -/
